@@ -45,8 +45,12 @@ def _install_bw_sleep_probe():
     bw.TimeUtils.sleep = sleep
 
 
-def pattern(tidx, n, salt=0):
-    """Position-dependent bytes: misplaced or repeated ranges never look right."""
+def pattern(tidx, n, salt=0, period=None):
+    """Position-dependent bytes: misplaced or repeated ranges never look right.
+    With `period` the data repeats (zero-filled / periodic files: equal parts)."""
+    if period:
+        unit = pattern(tidx, period, salt)
+        return (unit * (n // period + 1))[:n]
     if n > 4096:
         import random as _r
         return _r.Random(tidx * 1000003 + salt * 7919 + n).randbytes(n)
@@ -516,6 +520,10 @@ class World:
             (c['max_in_memory_download_chunks'] if down else 0)
         return TransferConfig(**c)
 
+    def _part_period(self):
+        c = self.config or {}
+        return max(1, int(c.get('multipart_chunksize') or 1))
+
     def _all_transfer_specs(self):
         out = list(self.scenario['transfers'])
         for a in self.scenario.get('driver', []):
@@ -577,6 +585,9 @@ class World:
             t['key'] = 'k%d' % idx
             off = spec.get('offset', 0) if spec['src'] == 'seekable' else 0
             full = pattern(idx, size + off)
+            if spec.get('periodic'):
+                # every part holds the same bytes (sparse / zero-filled file)
+                full = full[:off] + pattern(idx, size, period=self._part_period())
             t['expect'] = full[off:]
             if spec['src'] == 'path':
                 t['path'] = spec.get('path_override') or '/d/up%d' % idx
@@ -631,7 +642,7 @@ class World:
         elif ty == 'copy':
             t['key'] = 'k%d' % idx
             t['src_key'] = spec.get('key_override') or 'src%d' % idx
-            data = pattern(idx, size)
+            data = pattern(idx, size, period=self._part_period() if spec.get('periodic') else None)
             t['expect'] = data
             if spec.get('versioned'):
                 # the caller names a NON-current version of the source: the
